@@ -7,6 +7,7 @@ import (
 	"encoding/json"
 	"errors"
 	"fmt"
+	"github.com/compose-spec/compose-go/v2/interpolation"
 	"os"
 	"path/filepath"
 	"regexp"
@@ -155,7 +156,7 @@ func C07(c *core.Ctx) {
 			}
 			if n%step == 0 {
 				loads++
-				if f := c07Load(s, env, want, loads%3, filepath.Join(c.Work, "c07inc")); f != "" {
+				if f := c07Load(s, env, want, loads%4, filepath.Join(c.Work, "c07inc")); f != "" {
 					c.Report(core.Finding{Sig: "load:" + tplSig(s), Detail: f, Replay: map[string]interface{}{"template": s, "env": env, "expected": want}})
 				}
 			}
@@ -256,6 +257,44 @@ func c07Load(s string, env tplEnv, want map[string]interface{}, mode int, dir st
 		return
 	}
 	switch mode {
+	case 3:
+		// the interpolation package itself, on one parsed document interpolated twice: under a priming environment first, then
+		// under the case's; the second result is the grammar's for the case's environment, whatever was interpolated before
+		parsed := map[string]interface{}{"services": map[string]interface{}{"a": map[string]interface{}{"image": "img", "labels": map[string]interface{}{"k": s}, "command": []interface{}{"run", s}}}}
+		lookup := func(m types.Mapping) interpolation.LookupValue {
+			return func(k string) (string, bool) { v, ok := m[k]; return v, ok }
+		}
+		prime := types.Mapping{}
+		for k := range env {
+			prime[k] = "primed-" + k
+		}
+		var out map[string]interface{}
+		var err error
+		pan := func() (pan interface{}) {
+			defer func() { pan = recover() }()
+			_, _ = interpolation.Interpolate(parsed, interpolation.Options{LookupValue: lookup(prime)})
+			out, err = interpolation.Interpolate(parsed, interpolation.Options{LookupValue: lookup(e)})
+			return nil
+		}()
+		if pan != nil {
+			return fmt.Sprintf("interpolating a document with value %q panics: %v", s, pan)
+		}
+		if asBool(want["ok"]) {
+			if err != nil {
+				return fmt.Sprintf("interpolation.Interpolate on a document with value %q fails: %v; the grammar defines %q", s, err, asStr(want["v"]))
+			}
+			a, _ := out["services"].(map[string]interface{})["a"].(map[string]interface{})
+			got, _ := a["labels"].(map[string]interface{})["k"].(string)
+			cmd, _ := a["command"].([]interface{})
+			if got != asStr(want["v"]) || len(cmd) != 2 || cmd[1] != asStr(want["v"]) {
+				return fmt.Sprintf("interpolation.Interpolate (second interpolation of the same document): value %q gives %q / %v; the grammar defines %q (env %v)", s, got, cmd, asStr(want["v"]), env)
+			}
+			return ""
+		}
+		if err == nil {
+			return fmt.Sprintf("interpolation.Interpolate accepts %q although the grammar defines an error for %q", s, asStr(want["var"]))
+		}
+		return ""
 	case 1:
 		parsed := map[string]interface{}{"services": map[string]interface{}{"a": map[string]interface{}{"image": "img", "labels": map[string]interface{}{"k": s}, "command": []interface{}{"run", s}}}}
 		prime := types.Mapping{}
